@@ -344,6 +344,7 @@ func cmdCheck(args []string) int {
 	sort.SliceStable(failures, func(i, j int) bool { return failures[i].o.Result == "sat" && failures[j].o.Result != "sat" })
 	knownSeen := map[string]bool{}
 	replayDir := filepath.Join(verifDir, "replays", id)
+	os.RemoveAll(replayDir) // replay files are run output: only this run's are kept
 	var outLines []string
 	for i := range failures {
 		fl := &failures[i]
